@@ -66,6 +66,10 @@ func (sm *pipelineStateMachine) GetStats() []*models.StageStats {
 
 // executeStage tracks stage start execution state.
 func (sm *pipelineStateMachine) executeStage(parentStageID, stageID string, stage stagepkg.Stage) {
+	// evaluate the identifier before the stage is counted as pending: if it panics(the recover of the stage
+	// is not installed yet) nothing is registered, else the stage stays pending forever and the pipeline never completes.
+	identifier := stage.Identifier()
+
 	sm.mutex.Lock()
 	defer sm.mutex.Unlock()
 
@@ -80,7 +84,7 @@ func (sm *pipelineStateMachine) executeStage(parentStageID, stageID string, stag
 	ts.startTime = time.Now()
 	ts.stats = &models.StageStats{
 		Start:      ts.startTime.UnixNano(),
-		Identifier: stage.Identifier(),
+		Identifier: identifier,
 		State:      ts.state.String(),
 	}
 	if parentStageID == "" {
